@@ -23,51 +23,42 @@ void h_affine_at(void)
   OUT_VEC_T r = affine_at(&in_self, in_c); (void)r; VERIF_REACH();
 }
 
-/* lemmas over the contracts (calls replaced): (A*B)*v == A*(B*v); translation(t)*v == v+t; scaling(s)*v == s.v;
- * identity*v == v -- for one ghost component, in exact integer arithmetic */
+/* lemmas over the contracts (calls replaced), in the ring of T (decided for T = unsigned: arithmetic modulo 2^32 is a
+ * commutative ring, so associativity/distributivity across the different summation orders are ring identities):
+ * (A*B)*v == A*(B*v); translation(t)*v == v+t; scaling(s)*v == s.v; identity*v == v -- one ghost component */
 void h_lemma_compose(void)
 {
   MAT_N_N1 in_a = nondet_aff(), in_b = nondet_aff(); VEC_N in_v = nondet_vec();
-  __CPROVER_assume(SMALL_MAT_N_N1(&in_a, 4) && SMALL_MAT_N_N1(&in_b, 4) && SMALL_VEC_N(&in_v, 4));
-  unsigned gi = nondet_unsigned(); __CPROVER_assume(gi < DIMS_IN);
-  /* (A*B)*v, component gi: needs row gi of A*B, i.e. all columns -> one replaced call per column with ghost_j = column */
-  long lhs = 0;
-  MAT_N_N1 ab;
-  for (unsigned j = 0; j < N1; j++) {
-    verif_ghost_i = gi; verif_ghost_j = j;
-    MAT_N_N1 t = affine_mul(&in_a, &in_b);
-    ab.m_elems[gi][j] = t.m_elems[gi][j];
-    lhs += L(t.m_elems[gi][j]) * (j < DIMS_IN ? L(in_v.m_elems[j][0]) : 1);
-  }
-  /* A*(B*v): B*v needs every component -> one replaced call per component */
-  VEC_N bv;
-  for (unsigned k = 0; k < DIMS_IN; k++) { verif_ghost_i = k; VEC_N t = affine_apply(&in_b, &in_v); bv.m_elems[k][0] = t.m_elems[k][0]; }
-  verif_ghost_i = gi;
+  MAT_N_N1 ab = affine_mul(&in_a, &in_b);
+  VEC_N bv = affine_apply(&in_b, &in_v);
   VEC_N r = affine_apply(&in_a, &bv);
-  __CPROVER_assert(L(r.m_elems[gi][0]) == lhs, "(A*B)*v == A*(B*v): the product applies the right factor first");
+  for (unsigned gi = 0; gi < DIMS_IN; gi++) {     /* every component, with concrete indices */
+    AT lhs = 0;
+    for (unsigned j = 0; j < N1; j++) lhs += ab.m_elems[gi][j] * (j < DIMS_IN ? in_v.m_elems[j][0] : (AT)1);
+    __CPROVER_assert(r.m_elems[gi][0] == lhs, "(A*B)*v == A*(B*v): the product applies the right factor first");
+  }
   VERIF_REACH();
 }
 void h_lemma_factories(void)
 {
   ARGS_T in_t; VEC_N in_v = nondet_vec();
-  for (unsigned i = 0; i < DIMS_IN; i++) { in_t.m_data[i] = nondet_AT(); __CPROVER_assume(IS_INT_UPTO(in_t.m_data[i], AFF_MAX)); }
-  __CPROVER_assume(SMALL_VEC_N(&in_v, AFF_MAX));
-  unsigned gi = nondet_unsigned(); __CPROVER_assume(gi < DIMS_IN);
+  for (unsigned i = 0; i < DIMS_IN; i++) in_t.m_data[i] = nondet_AT();
   MAT_N_N1 tr, sc, id;
-  for (unsigned j = 0; j < N1; j++) {
-    verif_ghost_i = gi; verif_ghost_j = j;
-    MAT_N_N1 a = affine_translation(in_t); tr.m_elems[gi][j] = a.m_elems[gi][j];
-    MAT_N_N1 b = affine_scaling(in_t); sc.m_elems[gi][j] = b.m_elems[gi][j];
-    MAT_N_N1 c = mat_identity(); id.m_elems[gi][j] = c.m_elems[gi][j];
-  }
-  /* rows other than gi are irrelevant for component gi but must satisfy the callee's precondition */
-  for (unsigned i = 0; i < DIMS_IN; i++) if (i != gi) for (unsigned j = 0; j < N1; j++) { tr.m_elems[i][j] = 0; sc.m_elems[i][j] = 0; id.m_elems[i][j] = 0; }
-  verif_ghost_i = gi;
+  for (unsigned i = 0; i < DIMS_IN; i++) for (unsigned j = 0; j < N1; j++) { tr.m_elems[i][j] = 0; sc.m_elems[i][j] = 0; id.m_elems[i][j] = 0; }
+  for (unsigned i = 0; i < DIMS_IN; i++)
+    for (unsigned j = 0; j < N1; j++) {       /* the factory contracts speak about one ghost entry: one replaced call per entry */
+      verif_ghost_i = i; verif_ghost_j = j;
+      MAT_N_N1 a = affine_translation(in_t); tr.m_elems[i][j] = a.m_elems[i][j];
+      MAT_N_N1 b = affine_scaling(in_t); sc.m_elems[i][j] = b.m_elems[i][j];
+      MAT_N_N1 c = mat_identity(); id.m_elems[i][j] = c.m_elems[i][j];
+    }
   VEC_N r1 = affine_apply(&tr, &in_v);
-  __CPROVER_assert(L(r1.m_elems[gi][0]) == L(in_v.m_elems[gi][0]) + L(in_t.m_data[gi]), "translation(t)*v == v + t");
   VEC_N r2 = affine_apply(&sc, &in_v);
-  __CPROVER_assert(L(r2.m_elems[gi][0]) == L(in_v.m_elems[gi][0]) * L(in_t.m_data[gi]), "scaling(s)*v == s.v");
   VEC_N r3 = affine_apply(&id, &in_v);
-  __CPROVER_assert(L(r3.m_elems[gi][0]) == L(in_v.m_elems[gi][0]), "identity*v == v");
+  for (unsigned gi = 0; gi < DIMS_IN; gi++) {
+    __CPROVER_assert(r1.m_elems[gi][0] == (AT)(in_v.m_elems[gi][0] + in_t.m_data[gi]), "translation(t)*v == v + t");
+    __CPROVER_assert(r2.m_elems[gi][0] == (AT)(in_v.m_elems[gi][0] * in_t.m_data[gi]), "scaling(s)*v == s.v");
+    __CPROVER_assert(r3.m_elems[gi][0] == in_v.m_elems[gi][0], "identity*v == v");
+  }
   VERIF_REACH();
 }
